@@ -72,7 +72,28 @@ def ref_problems(lib, refs):
         a = refs[d["id"]][REF_HASHSEEDS[0]]
         bad = [s for s in a["steps"] if s.startswith("exc:")]
         if bad:
-            unusable[d["id"]] = bad[0]
+            # a render request that succeeded once and RAISES when repeated with no edit in between
+            # is a violation of "independent of how often it is rendered", not a library problem
+            k, prev_ok, rep = -1, None, None
+            for st, outcome in zip(d["steps"], a["steps"]):
+                if st["s"] in ("render", "cli_render"):
+                    k += 1
+                    if outcome.startswith("exc:") and prev_ok == st:
+                        rep = (k, outcome)
+                        break
+                    prev_ok = st if outcome == "ok" else None
+                elif st["s"] in ("to_code", "export"):
+                    k += 1
+                    prev_ok = None
+                elif st["s"] != "touch":
+                    prev_ok = None
+            first_bad = next(i for i, s_ in enumerate(a["steps"]) if s_.startswith("exc:"))
+            if rep is not None and d["steps"][first_bad]["s"] in ("render", "cli_render") and \
+                    a["steps"][:first_bad].count("ok") == first_bad:
+                hs_viol.append({"desc": d, "render": rep[0], "clause": "repeated-render-differs",
+                                "files": [f"the repeated request raised {rep[1][4:200]}"]})
+            else:
+                unusable[d["id"]] = bad[0]
             continue
         ra = [r.get("digest", r.get("exc")) for r in a["renders"]]
         differs = False
